@@ -294,7 +294,9 @@ def particle_number_measurement(
 
     if shots is None:
         if marginal_sampling:
-            probabilities = state.get_marginal_fock_probabilities(modes=modes)
+            probabilities = state.get_marginal_fock_probabilities(
+                modes=map_to_original_modes(modes, postselected_modes)
+            )
 
             return [
                 Branch(
